@@ -167,6 +167,10 @@ Proof.
     unfold with_c in H; inversion H; subst s'; clear H.
     intros y Hy Hnd'; simpl in *; apply In_upd in Hy; destruct Hy as [->|Hy]; [|apply Hal; auto].
     simpl in *; apply Hal; auto.
+  - (* LAbort *)
+    inv_nth2 H c Hc. destruct (c_pc c) eqn:Hpc; try discriminate.
+    unfold with_c in H; inversion H; subst s'; clear H.
+    eapply all_live_upd; eauto; congruence.
 Qed.
 
 Lemma pc_at_upd : forall s kv' j c' i,
@@ -246,6 +250,9 @@ Proof.
     unfold with_c in H; inversion H; subst s';
       rewrite pc_at_upd by auto; destruct (Nat.eqb i i0) eqn:E; auto;
       apply Nat.eqb_eq in E; subst; simpl; rewrite <- (Hpc c Hc); auto.
+  - destruct (c_pc c) eqn:P; try discriminate.
+    destruct (Nat.eqb i i0) eqn:E; [apply Nat.eqb_eq in E; subst; rewrite (Hpc c Hc) in P; discriminate|].
+    unfold with_c in H; inversion H; subst s'; rewrite pc_at_upd by auto; rewrite E; auto.
 Qed.
 
 Lemma okl_not_exit : forall ins l i, okl ins l -> In i ins -> l <> LExit i.
@@ -380,7 +387,10 @@ Proof.
     + constructor; auto. apply existsb_nat_false; auto.
   - (* EFail *)
     crack H. inversion H; subst a'; cbn [a_sys a_lose a_in]. split; [|reflexivity].
-    split; cbn [a_sys a_lose a_in]; auto. eapply path_pinv; [eapply settle_ret_path; eauto|exact P].
+    split; cbn [a_sys a_lose a_in]; auto. eapply path_pinv; [|exact P].
+    match goal with E : match pc_at _ _ with _ => _ end = Some _ |- _ =>
+      destruct (pc_at (a_sys a) i) as [[]|] in E; first [ solve_path | eapply settle_ret_path; exact E ]
+    end.
   - (* EExit *)
     crack H. inversion H; subst a'; cbn [a_sys a_lose a_in]. split; [|reflexivity].
     set (ins' := filter (fun j => negb (Nat.eqb i j)) (a_in a)).
